@@ -33,10 +33,14 @@ var ckOvf bool
 // NeoVM turns such errors into an uncatchable FAULT; the harness reports that shape under its own key.
 var ckRt bool
 
+// ckRec: some panic was recovered by the program.
+var ckRec bool
+
 func ck_rt(r any) {
 	if _, ok := r.(tooLong); ok {
 		panic(r)
 	}
+	ckRec = true
 	if _, ok := r.(runtime.Error); ok {
 		ckRt = true
 	}
@@ -142,7 +146,7 @@ func main() {
 	defer out.Flush()
 	for _, e := range table {
 		for ti, t := range e.tuples {
-			ckOvf, ckRt, ckLong, ckSteps = false, false, false, 0
+			ckOvf, ckRt, ckRec, ckLong, ckSteps = false, false, false, false, 0
 			rc := ""
 			if e.fC != nil {
 				rc = call(e.resetC, e.fC, t)
@@ -162,6 +166,9 @@ func main() {
 			if ckRt {
 				ov += 2
 			}
+			if ckRec {
+				ov += 8
+			}
 			fmt.Fprintf(out, "%s %d %d %s | %s\n", e.tag, ti, ov, rp, rc)
 		}
 	}
@@ -171,7 +178,8 @@ func main() {
 type goRes struct {
 	long    bool // the step budget was exceeded: tuple not compared
 	ovf     bool
-	rtrec   bool // a run-time error was recovered on the Go side
+	rtrec   bool   // a run-time error was recovered on the Go side
+	rec     bool   // some panic was recovered on the Go side
 	plain   string // "ok <canon>" or "panic"
 	checked string
 }
@@ -325,7 +333,8 @@ func runBatch(dir string, progs []*Prog) (map[string]goRes, map[int]string, erro
 			if len(fs) != 5 {
 				continue
 			}
-			res[fs[0]+" "+fs[1]+" "+fs[2]] = goRes{long: fs[3] == "4", ovf: fs[3] == "1" || fs[3] == "3", rtrec: fs[3] == "2" || fs[3] == "3", plain: fs[4], checked: parts[1]}
+			fl, _ := strconv.Atoi(fs[3])
+			res[fs[0]+" "+fs[1]+" "+fs[2]] = goRes{long: fl&4 != 0, ovf: fl&1 != 0, rtrec: fl&2 != 0, rec: fl&8 != 0, plain: fs[4], checked: parts[1]}
 		}
 		return res, dropped, nil
 	}
